@@ -131,7 +131,7 @@ func stepsOf(tests map[string][]Step, name string) []Step {
 
 func genC08(t *rapid.T) c08Case {
 	c := c08Case{Tests: map[string][]Step{}}
-	subPool := []string{"sub1", "sub2", "Sub", "deep", "s", "2", "Alpha", "sub1.1", "sub1-b", "s s"}
+	subPool := []string{"sub1", "sub2", "Sub", "deep", "s", "2", "Alpha", "sub1.1", "sub1-b"}
 	ntests := rapid.IntRange(2, 5).Draw(t, "ntests")
 	perm := rapid.Permutation(indices(len(c08Pool))).Draw(t, "tests")
 	for _, i := range perm[:ntests] {
